@@ -430,6 +430,13 @@ def run_backend_sequence(case):
     import lightworks as lw
     from lightworks import emulator
     backends = {b: emulator.Backend(b) for b in ("permanent", "slos")}
+    # somebody else's Sampler, created without a source or detector and then degraded in place: the defaults of the
+    # Samplers created below are their own
+    c0 = call("build", build_real, case["sequence"][0]["prog"])
+    other = emulator.Sampler(c0, lw.State(list(case["sequence"][0]["input"])))
+    other.source.brightness = 0.5
+    other.source.indistinguishability = 0.3
+    other.detector.efficiency = 0.4
     sampler = {}
     labels = {"via-" + case["via"]}
     dims_seen = set()
